@@ -35,7 +35,9 @@ GEN_LEVELS: list[tuple[str, list[str]]] = [
 	('bin', ['|']), ('bin', ['^']), ('bin', ['&']), ('bin', ['<<', '>>']), ('bin', ['+', '-']), ('bin', ['*', '/', '%']),
 	('pre', ['+', '-', '~']),
 ]
-KEEP_KINDS = {'NAME', 'DEC_NUMBER', 'FLOAT_NUMBER', 'HEX_NUMBER', 'STRING'}
+KEEP_KINDS = {'NAME', 'DEC_NUMBER', 'FLOAT_NUMBER', 'HEX_NUMBER', 'STRING', 'MATCH', 'CASE'}
+# keyword facts of grammar.lark as the translator read them off lark's LALR table (set by run_translators)
+LEXER_FACTS: dict[str, Any] = {'reserved': [], 'statement_start': [], 'soft_names': []}
 # tree names of the ladder fragment the reference parser covers (calls, displays, ternaries … are search-only)
 FRAGMENT_TAGS = {'or_test', 'and_test', 'not_test', 'comparison', 'comp_op', 'comp_in', 'comp_not_in', 'comp_is', 'comp_is_not', 'or_expr', 'xor_expr',
 	'and_expr', 'shift_expr', 'sum', 'term', 'factor', 'group_expr', 'var', 'name', 'number', 'string', 'const_true', 'const_false', 'const_none',
@@ -53,6 +55,8 @@ def run_translators(ctx: Ctx) -> tuple[bool, str]:
 	for mod in (gen_grammar_ladder, gen_resolver_table):
 		try:
 			for rec in mod.generate():
+				if 'lexer' in rec:
+					LEXER_FACTS.update(rec.pop('lexer'))
 				ctx.generated_tables.append(rec)
 		except Exception as e:  # noqa: BLE001 - an unrecognised input shape breaks the tie (DESIGN §2.3)
 			ok = False
@@ -193,9 +197,9 @@ def mutate_text(rng: random.Random, text: str) -> str:
 	if r < 0.3:
 		del toks[k]
 	elif r < 0.55:
-		toks.insert(k, rng.choice(['not', '==', '(', ')', '+', 'in', 'is', 'a', 'or', '~', 'if', 'else', ':', 'lambda']))
+		toks.insert(k, rng.choice(['not', '==', '(', ')', '+', 'in', 'is', 'a', 'or', '~', 'if', 'else', ':', 'lambda', *(LEXER_FACTS['reserved'] or ['while'])]))
 	elif r < 0.8:
-		toks[k] = rng.choice(['not', 'is', 'in', ')', '(', '*', 'and', 'b'])
+		toks[k] = rng.choice(['not', 'is', 'in', ')', '(', '*', 'and', 'b', *(LEXER_FACTS['reserved'] or ['while'])])
 	else:
 		toks = toks[:k] + toks[k + 1:] + toks[k:k + 1]
 	return ' '.join(toks)
@@ -255,6 +259,10 @@ def keyword_split_hazard(text: str) -> bool:
 	return False
 
 
+KEYWORD_POSITIONS = ['{w}', '{w} + 1', '{w} if a else b', 'a + {w}', 'a == {w}', 'a is not {w}', '({w})', 'a and {w}', 'not {w}', '- {w}', '~{w} * 2',
+	'x if {w} else y', 'x if y else {w}', 'lambda {w}: 1', 'lambda: {w}', 'lambda a, {w}: a', '({w}) or {w}', '{w} {w}', 'a {w} b']
+
+
 def stream_lark_vs_rd(ctx: Ctx) -> Stream:
 	rng = ctx.sub_rng('lark-vs-rd')
 	app = common.MemApp(ctx.tmpdir())
@@ -262,9 +270,15 @@ def stream_lark_vs_rd(ctx: Ctx) -> Stream:
 	cases = []
 	hist: Counter[str] = Counter()
 	corpus_texts = [c['text'] for c in load_corpus() if c.get('stream') == 'lark-vs-rd']
-	for i in range(n + len(corpus_texts)):
-		if i < len(corpus_texts):
-			text, kind = corpus_texts[i], 'corpus'
+	# every keyword of the grammar (and a few soft / builtin words) at every kind of name position of an expression, on every run:
+	# where the parser state accepts the keyword terminal lark takes it, elsewhere the word is a NAME
+	for w in [*LEXER_FACTS['reserved'], 'print', 'type', 'self', '_']:
+		for tpl in KEYWORD_POSITIONS:
+			corpus_texts.append(tpl.format(w=w))
+	n_fixed = len(corpus_texts)
+	for i in range(n + n_fixed):
+		if i < n_fixed:
+			text, kind = corpus_texts[i], 'corpus+keywords'
 		else:
 			depth = 1 + (i % 6) if not ctx.thorough else 1 + (i % 8)
 			t = gen_optree(rng, depth, ops_extra=True)
@@ -861,6 +875,21 @@ class Gen:
 # stream classify
 
 
+def keyword_names_program(app: common.MemApp) -> list[str]:
+	"""every keyword of the grammar as attribute name, call argument label, parameter and variable — wherever lark (the
+	reference) accepts it there as a NAME"""
+	lines = []
+	for w in LEXER_FACTS['reserved']:
+		for tpl in ('v = a.{w}', 'a.{w} = 1', 'f({w}=1)', 'g(a, {w}=b, *c)', 'x = b + {w}', 'def h({w}: int) -> None:\n\tpass'):
+			line = tpl.format(w=w)
+			try:
+				app.entrypoint(line + '\n')
+			except Exception:  # noqa: BLE001 - the keyword terminal is acceptable at that position: not a name there
+				continue
+			lines.append(line)
+	return lines
+
+
 def stream_classify(ctx: Ctx) -> Stream:
 	from rogw.tranp.syntax.ast.finder import ASTFinder
 	rng = ctx.sub_rng('classify')
@@ -872,6 +901,9 @@ def stream_classify(ctx: Ctx) -> Stream:
 	for i in range(n):
 		sources.append((Gen(rng, 2 + i % 4).module(), 'generated'))
 	sources += [(s, 'special') for s in SPECIAL_PROGRAMS]
+	kw_items = keyword_names_program(app)
+	for k in range(0, len(kw_items), 40):
+		sources.append(('\n'.join(kw_items[k:k + 40]) + '\n', 'special-keywords'))
 	for src, kind in sources:
 		try:
 			ep = app.entrypoint(src)
@@ -909,7 +941,7 @@ def stream_call_args(ctx: Ctx) -> Stream:
 	for i in range(ctx.scale(150, 2500)):
 		g = Gen(rng, 1)
 		n_pos, n_kw = rng.choice([0, 1, 2, 3]), rng.choice([0, 0, 1, 2])
-		parts = [g.expr(1) for _ in range(n_pos)] + [f'{rng.choice(["key", "sep", "n", "self", "lambda_"])}={g.expr(1)}' for _ in range(n_kw)]
+		parts = [g.expr(1) for _ in range(n_pos)] + [f'{rng.choice(["key", "sep", "n", "self", "lambda_", *[w for w in LEXER_FACTS["reserved"] if w not in ("lambda", "not", "True", "False", "None")]])}={g.expr(1)}' for _ in range(n_kw)]
 		rng.shuffle(parts)  # grammar.lark lets named and plain arguments mix freely (CPython does not; irrelevant for this reading)
 		if rng.random() < 0.3:
 			parts.append(f'*{g.name()}')
